@@ -215,6 +215,27 @@ func (f *File) GetTotalSize() (int64, error) {
 	return fileHeaderLen + int64(len(f.lfhName)+len(f.lfhExtra)+len(f.ddb)) + int64(f.CompressedSize), nil
 }
 
+// ErrNotContiguous is returned when an archive that is about to be rewritten
+// has leading data or gaps between its members.
+var ErrNotContiguous = errors.New("zip members are not stored contiguously from the start of the file; refusing to rewrite this archive")
+
+// CheckContiguous verifies that this member starts exactly at *pos and
+// advances *pos past it. The rewriting code re-indexes kept members as if the
+// archive were laid out back to back from offset 0 in directory order, so it
+// must visit every member with this check (and compare the final position with
+// the directory location) before producing a patch.
+func (f *File) CheckContiguous(pos *int64) error {
+	if int64(f.Offset) != *pos {
+		return ErrNotContiguous
+	}
+	size, err := f.GetTotalSize()
+	if err != nil {
+		return err
+	}
+	*pos += size
+	return nil
+}
+
 func (d *Directory) NewFile(name string, extra, contents []byte, w io.Writer, mtime time.Time, deflate, useDesc bool) (*File, error) {
 	var zh zip.FileHeader
 	// need the side effect of this conversion
